@@ -43,7 +43,12 @@ Definition provides_b (r : reg) (t : ty) (n : nat) (g : grp) (out : nat) : bool 
 (* a name next to a group on one dependency is ignored *)
 Definition dep_name (d : dep) : nat := if d_group d =? 0 then d_name d else 0.
 (* instance i is a legitimate answer to a request for (t, name n, group g) *)
+Definition is_nil_member (i : inst) : bool := match i with IObj 0 0 0 dyn => dyn =? T_NILOUT | _ => false end.
 Definition produced_for (rs : list reg) (i : inst) (t : ty) (n : nat) (g : grp) : bool :=
+  if is_nil_member i
+  then (* a group member its constructor left nil: some registration declares such an output for this group *)
+       negb (g =? 0) && existsb (fun r => existsb (fun '(t', _, g', k) => (t' =? t) && (g' =? g) && out_is_nil r k) (provides r)) rs
+  else
   match i with
   | IVoid => false
   | IObj rid _ out dyn =>
@@ -60,8 +65,8 @@ Definition pair_eqb (a b : nat * nat) : bool := (fst a =? fst b) && (snd a =? sn
 (* one entry per member: a result object may contribute several fields to one group, in field order *)
 Definition group_in_order (rs : list reg) (t : ty) (g : grp) (l : list inst) : bool :=
   list_eqb pair_eqb
-    (flat_map (fun i => match i with IObj rid _ out _ => [(rid, out)] | IVoid => [] end) l)
-    (flat_map (fun r => flat_map (fun '(t', _, g', k) => if (t' =? t) && (g' =? g) then [(r_id r, k)] else []) (provides r)) rs).
+    (flat_map (fun i => if is_nil_member i then [(0, 0)] else match i with IObj rid _ out _ => [(rid, out)] | IVoid => [] end) l)
+    (flat_map (fun r => flat_map (fun '(t', _, g', k) => if (t' =? t) && (g' =? g) then [if out_is_nil r k then (0, 0) else (r_id r, k)] else []) (provides r)) rs).
 Definition arg_ok (rs : list reg) (lenient : bool) (p : param) (a : aval) : bool :=
   match p, a with
   | PSkip, AZero => true
@@ -693,11 +698,16 @@ Fixpoint last_ctor (evs : list event) : option event :=
   | [] => None
   | e :: evs' => match last_ctor evs' with Some x => Some x | None => if is_ctor e then Some e else None end
   end.
+(* "singleton not initialized" is an answer of its own kind (errors.Is ErrSingletonNotInitialized) where a singleton's
+   constructor left that output nil at Build; anywhere else in a sequential history it is an internal inconsistency *)
+Definition some_singleton_left_nil (ms : mstate) : bool :=
+  existsb (fun r => life_eqb (r_life r) Singleton && existsb (fun d => d =? T_NILOUT) (r_dyn r))
+          (ms_active ms ++ flat_map snd (ms_regs_of_prov ms)).
 Definition step_C15 (ms : mstate) (o : op) (s : list event * result) : bool :=
   let '(evs, r) := s in
   match r with
   | RErr c mods =>
-      (match c with EPanicked | EOther | ESingletonNotInit => false | _ => true end)
+      (match c with EPanicked | EOther => false | ESingletonNotInit => some_singleton_left_nil ms | _ => true end)
       && (match o with OModules _ => true | _ => match mods with [] => true | _ => false end end)
       && match c with
          | ECtorErr rid => existsb (fun e => match e with EvCtor r' _ _ OErr => r' =? rid | _ => false end) evs
@@ -721,6 +731,7 @@ Definition spec_has (rs : list reg) (t : ty) (n : nat) : bool :=
   existsb (fun '(t', n', g', _, _) => (t' =? t) && (n' =? n) && (g' =? 0)) (spec_entries rs).
 Definition clean_reg (r : reg) : bool :=
   (r_bad r =? 0) && ((r_name r =? 0) || (r_group r =? 0)) && negb (is_void r && negb (r_group r =? 0)) &&
+  forallb (fun '(_, n, g, _) => (n =? 0) || (g =? 0)) (provides_all r) &&
   forallb (fun '(t, _, _, _) => negb (is_reserved t)) (provides r) &&
   match r_form r with FCtor _ _ (_ :: _ :: _) _ | FResult _ _ _ _ => true | f => forallb (implements (form_type f)) (r_as r) end.
 (* whatever runs or is handed out belongs to a registration the provider was built with *)
